@@ -436,6 +436,22 @@ class Check(Property):
                 if not ok:
                     v.append(f"C07 {expr_!r} evaluates to {got}; the notation denotes {n * scale} +/- {sd * scale} {unit}")
                     break
+        # an uncertain value is ONE operand: an exponent or a division applies to the whole of it (first-order propagation)
+        from uncertainties import ufloat
+        for expr_, want, unit in (("(2.0 +/- 0.1)**2 m", ufloat(2.0, 0.1) ** 2, "meter"), ("2.0(1)**2 m", ufloat(2.0, 0.1) ** 2, "meter"),
+                                  ("(2.0 ± 0.1)^2 m", ufloat(2.0, 0.1) ** 2, "meter"), ("(3.0 +/- 0.3)**-1 s", ufloat(3.0, 0.3) ** -1, "second"),
+                                  ("m / (2.0 +/- 0.1)**2", 1 / ufloat(2.0, 0.1) ** 2, "meter"), ("2 ** (1.0 +/- 0.1) m", 2 ** ufloat(1.0, 0.1), "meter"),
+                                  ("(2.0 +/- 0.1) ** 2 * (1.0 +/- 0.5) m", ufloat(2.0, 0.1) ** 2 * ufloat(1.0, 0.5), "meter")):
+            try:
+                q = r(expr_)
+                m = q.magnitude
+                ok = (abs(m.nominal_value - want.nominal_value) <= 1e-9 * abs(want.nominal_value) and abs(m.std_dev - want.std_dev) <= 1e-9 * want.std_dev
+                      and str(q.units) == unit)
+                got = f"{m.nominal_value} +/- {m.std_dev} {q.units}"
+            except Exception as exc:  # noqa: BLE001
+                ok, got = False, type(exc).__name__
+            if not ok:
+                v.append(f"C07 {expr_!r} evaluates to {got}; Python's operators on the uncertain operands give {want.nominal_value} +/- {want.std_dev} {unit}")
         return v[:8]
 
     def reparse_probe(self):
